@@ -18,9 +18,6 @@ import (
 	"encoding/json"
 	"flag"
 	"fmt"
-	"go/ast"
-	"go/parser"
-	"go/token"
 	"io"
 	"math"
 	"os"
@@ -42,6 +39,7 @@ import (
 	"verifharness/concshapes"
 	"verifharness/effsum"
 	. "verifharness/kit"
+	"verifharness/sysgen"
 )
 
 func main() {
@@ -49,43 +47,15 @@ func main() {
 		childMain(os.Args[2:])
 		return
 	}
-	Main("C09", checkC09, func(c *Ctx) (string, []byte, error) { return effsum.Gen(c.Repo) })
+	Main("C09", checkC09, func(c *Ctx) (string, []byte, error) { return effsum.Gen(c.Repo) }, sysgen.Gen)
 }
 
 // ---------------------------------------------------------------------------- batch plan
 
-// batchSizeOf reads `const batchSize = N` from the render package of the tree under test.
+// batchSizeOf finds the batch size of layerYZ.Evaluate of the tree under test from its use in the
+// batching loop (harness/sysgen), whatever the constant is called and wherever it is declared.
 func batchSizeOf(repo string) (int, error) {
-	fset := token.NewFileSet()
-	pkgs, err := parser.ParseDir(fset, filepath.Join(repo, "render"), nil, 0)
-	if err != nil {
-		return 0, err
-	}
-	found := 0
-	for _, p := range pkgs {
-		for _, f := range p.Files {
-			ast.Inspect(f, func(n ast.Node) bool {
-				vs, ok := n.(*ast.ValueSpec)
-				if !ok {
-					return true
-				}
-				for i, id := range vs.Names {
-					if id.Name == "batchSize" && i < len(vs.Values) {
-						if bl, ok := vs.Values[i].(*ast.BasicLit); ok {
-							if v, err := strconv.Atoi(bl.Value); err == nil {
-								found = v
-							}
-						}
-					}
-				}
-				return true
-			})
-		}
-	}
-	if found <= 0 {
-		return 0, fmt.Errorf("const batchSize not found in %s/render", repo)
-	}
-	return found, nil
+	return sysgen.BatchSize(repo)
 }
 
 // recorder gives the j-th point of the layer loop the value j and perturbs the schedule.
@@ -1034,7 +1004,8 @@ func checkC09(c *Ctx, r *Report) error {
 	r.Trusted = append(r.Trusted,
 		"harness/effsum (see C10) for the premise that no map range, math/rand, time, unsynchronised shared store or extra go statement is reachable from Render/Evaluate; the whitelist is coq/Sys/Sched.v section 4",
 		"hook render.VerifLayerEvaluate (verif tag) calls evalOnce.Do(evalRoutines), newLayerYZ and layerYZ.Evaluate as marchingCubes does",
-		"hand model Sched.plan_loop of the batching loop of layerYZ.Evaluate, tied by the recorded point->slot association",
+		"model Sched.plan_loop of the batching loop of layerYZ.Evaluate, tied twice: by translation (harness/sysgen extracts layerYZ.Evaluate, evalRoutines and marchingCubes into Generated/SysProgs.v; C09_source_layer_is_batch_plan proves that the interpreted loop sends exactly Sched.batch_plan for every layer, C09_source_workers_refine_sched that every interleaving of the extracted routine's statements is a schedule of Sched.v) and by the recorded point->slot association; the batch size is read from its use in the loop, whatever the constant is called",
+		"harness/sysgen (classification of Data statements, helper inlining, the check that the loop nest runs over exactly the allocated (ny+1)*(nz+1) points) and the reading of each primitive statement by the interpreters of SchedProg.v",
 		"sha256 (first 8 bytes) of the triangle coordinates bit patterns / file bytes as identity of observables")
 	r.Assumptions = append(r.Assumptions,
 		"everything after the WaitGroup (marching loop, Triangle3Buffer, the single writer goroutine per sink) is a function of the layer arrays: argued from Effects.v (whitelist) and C11, not modelled statement by statement",
